@@ -603,13 +603,13 @@ def install_layout_variation(p=0.35):
             finally:
                 depth[0] -= 1
             # The stand-in arrays belong to this wrapper: like a caller re-filling its buffers after the call, it
-            # overwrites them (same values, reversed positions) - unless the result is a view of one of them. An
+            # overwrites them (every entry becomes the first one: still values of the same kind) - unless the result is a view of one of them. An
             # implementation that kept a reference to an argument for later calls now holds something else.
             res = [x for x in (out if isinstance(out, (tuple, list)) else [out]) if isinstance(x, np.ndarray)]
             for b in mine:
                 for y in (b if isinstance(b, tuple) else (b,)):
                     if isinstance(y, np.ndarray) and y.flags.writeable and not any(np.shares_memory(y, r) for r in res):
-                        y[...] = y[::-1].copy() if y.ndim == 1 else np.ascontiguousarray(y).ravel()[::-1].reshape(y.shape)
+                        y[...] = y.flat[0]
                         LAYOUT_STATS["scribbled_after_call"] = LAYOUT_STATS.get("scribbled_after_call", 0) + 1
             return out
         wrapped._pf_layout = True
